@@ -65,6 +65,24 @@ C_BACKENDS(c_cfg_noq)
 template void c_use<msm::backmp11::state_machine_adapter<c_fe<c_opt_none>>>();
 template void c_use<msm::backmp11::state_machine_adapter<c_fe<c_opt_noexc>>>();
 
+// deferred queue / message queue priority option (back, back11)
+struct c_opt_prio { typedef int event_queue_before_deferred_queue; };
+template <class Opt>
+struct c_fe_d : public msm::front::state_machine_def<c_fe_d<Opt>>, public Opt
+{
+    struct S1 : c_st { typedef mpl::vector<c_more> deferred_events; }; struct S2 : c_st {};
+    typedef S1 initial_state;
+    struct transition_table : mpl::vector<
+        msm::front::Row<S1, c_go, S2, c_plain, c_grd>,
+        msm::front::Row<S2, c_more, S1, c_plain, msm::front::none>
+    > {};
+    template <class FSM, class Event> void no_transition(Event const&, FSM&, int) {}
+};
+template void c_use<msm::back::state_machine<c_fe_d<c_opt_none>>>();
+template void c_use<msm::back::state_machine<c_fe_d<c_opt_prio>>>();
+template void c_use<msm::back11::state_machine<c_fe_d<c_opt_none>>>();
+template void c_use<msm::back11::state_machine<c_fe_d<c_opt_prio>>>();
+
 // backmp11 without an event container
 struct c_no_pool_config : msm::backmp11::state_machine_config
 {
